@@ -63,6 +63,29 @@ fn gen_case(rng: &mut Rng, idx: u64) -> Case {
     if nf > 1 && rng.chance(1, 12) {
         fns[1].ident = fns[0].ident; // duplicate identifier: gcda records go to the later one
     }
+    // 1 in 5 functions announces its blocks in two or three BLOCKS records (no compiler does;
+    // `GcovBlock.no` then differs from the position in the block table)
+    for f in fns.iter_mut() {
+        if f.nblocks >= 3 && rng.chance(1, 5) {
+            let parts = if f.nblocks >= 4 && rng.chance(1, 2) { 3 } else { 2 };
+            let mut cuts: Vec<u32> = Vec::new();
+            while (cuts.len() as u32) < parts - 1 {
+                let c = rng.range(1, f.nblocks as u64 - 1) as u32;
+                if !cuts.contains(&c) {
+                    cuts.push(c);
+                }
+            }
+            cuts.sort();
+            cuts.push(f.nblocks);
+            let mut prev = 0;
+            f.block_split = cuts.iter().map(|&c| { let k = c - prev; prev = c; k }).collect();
+        }
+    }
+    // every ninth case: the ARCS record of block 0 of the first function is not the first one
+    // (`EntryFirst` of Props/C15Entry.lean violated)
+    if idx % 9 == 4 {
+        fns[0].move_entry_arcs_back();
+    }
     let mut recs = Vec::new();
     for f in &fns {
         recs.extend(f.recs());
@@ -229,6 +252,32 @@ fn corpus_cases(rep: &mut Report, rng: &mut Rng) -> Vec<Case> {
                 }
             }
         }
+    }
+    // minimised past failures first: corpus/C15/*.json (gcno + gcda bytes, the expected answer)
+    let mut js: Vec<std::path::PathBuf> = std::fs::read_dir("/verif/corpus/C15")
+        .map(|rd| rd.flatten().map(|e| e.path()).filter(|p| p.extension().map(|x| x == "json").unwrap_or(false)).collect())
+        .unwrap_or_default();
+    js.sort();
+    for p in js {
+        let Some(v) = std::fs::read_to_string(&p).ok().and_then(|t| serde_json::from_str::<Value>(&t).ok()) else { continue };
+        let case = &v["case"];
+        let gcno = unhex(case["gcno"].as_str().unwrap_or(""));
+        let pool_bytes: Vec<Vec<u8>> =
+            case["gcdas"].as_array().map(|a| a.iter().map(|x| unhex(x.as_str().unwrap_or(""))).collect()).unwrap_or_default();
+        let branch = case["branch"].as_bool().unwrap_or(true);
+        let (Some(notes), Some(pool)) = (decode_gcno(&gcno), pool_bytes.iter().map(|b| decode_gcda(b)).collect::<Option<Vec<Gcda>>>()) else {
+            rep.notes.push(format!("corpus file {} is not decodable", p.display()));
+            continue;
+        };
+        rep.count("corpus.c15.cases");
+        if let Some(exp) = case["expect"].as_str() {
+            let out = show_compute(&run_compute(&gcno, &pool_bytes, branch));
+            if out != exp {
+                rep.fail("oracle", None, format!("corpus case {}: Gcno::compute gives {} where {} was recorded", p.display(), out, exp), case.clone());
+            }
+        }
+        let n = pool.len();
+        out.push(Case { notes, gcno, pool, pool_bytes, bad: vec![false; n], branch, fns: vec![], flows: vec![], origin: format!("corpus {}", p.display()) });
     }
     walk(std::path::Path::new("/repo/test"), &mut files);
     let limit = if rep.thorough() { 320_000 } else { 40_000 };
@@ -476,6 +525,43 @@ fn run_inner(rep: &mut Report) {
         // ---- property oracles on the implementation
         for (msg, seq) in oracles(rep, c, &mut orng) {
             rep.fail("oracle", None, msg.clone(), case_json(c, &seq, &msg));
+        }
+        // shapes outside the compilers' output: what the real code does is recorded
+        for f in &c.fns {
+            if f.block_split.len() > 1 {
+                rep.count("gen.fn.several_blocks_records");
+            }
+        }
+        if let Some(f) = c.fns.first() {
+            if !f.entry_first() {
+                rep.count("gen.fn.entry_not_first");
+                let good: Vec<usize> = (0..c.pool.len()).filter(|&i| !c.bad[i]).collect();
+                let names_unique = c.fns.iter().filter(|g| g.name == f.name && g.file == f.file).count() == 1;
+                if !good.is_empty() && names_unique {
+                    let bytes: Vec<Vec<u8>> = good.iter().map(|&i| c.pool_bytes[i].clone()).collect();
+                    if let Ok(rs) = run_compute(&c.gcno, &bytes, c.branch) {
+                        let entry_idx = f.arcs.iter().position(|a| a.0 == 0).unwrap_or(0);
+                        let (mut entered, mut first) = (0u128, 0u128);
+                        for &i in &good {
+                            if let Some(Some(fl)) = c.flows.get(i).map(|v| v[0].clone()) {
+                                entered += fl[entry_idx] as u128;
+                                first += fl[0] as u128;
+                            }
+                        }
+                        let file = String::from_utf8_lossy(&f.file).to_string();
+                        let name = String::from_utf8_lossy(&f.name).to_string();
+                        let got = rs.iter().find(|(k, _)| *k == file).and_then(|(_, cv)| cv.functions.get(&name)).map(|x| x.executed);
+                        if got == Some(first > 0) {
+                            rep.count("entry_not_first.impl.executed_is_first_arc_taken");
+                        } else {
+                            rep.count("entry_not_first.impl.executed_is_something_else");
+                        }
+                        if got != Some(entered > 0) {
+                            rep.count("entry_not_first.impl.executed_differs_from_entered");
+                        }
+                    }
+                }
+            }
         }
         // ---- tie: a few sequences per case through both sides
         let all: Vec<usize> = (0..c.pool.len()).collect();
